@@ -43,12 +43,26 @@ def gen_case(rng, tier, k):
             ops.append(["control", [[rng.randrange(64), rng.randint(0, 1)]], rng.choice(["internal", "all"])])
         else:
             ops += gen_ops(rng, 1, allow_skip=True, allow_unmodelled=True)
-    budget_ = rng.choice([1, 5, 50, 1000, 1000, 100000])
+    if rng.random() < 0.15:
+        # strategies called on a diagram that already holds skip nodes (several independent modules: source SCCs,
+        # with or without stable motifs of their own)
+        bnet = common.g_union(rng, nmax=nmax + 1, nested=rng.random() < 0.5) if rng.random() < 0.4 else common.g_oscillators(rng, nmax + 1)
+        first = rng.choice([["skipmin", 0], ["skiprem"], ["skipmin", 0], ["skiprem"], ["min", 0, None, True], ["bfs", 0, 1, None]])
+        ops = [first] + ([rng.choice([["skiprem"], ["skipmin", rng.randrange(64)]])] if first[0] in ("min", "bfs") else []) + [
+            rng.choice([["scc", True], ["scc", False], ["scc", True], ["blockx", True, None, True, False], ["aseeds", None], ["build"]])] + ops[:2]
+    budget_ = rng.choice([0, 1, 5, 50, 1000, 1000, 100000])
     if budget_ > 1000:
         # large budgets only on very small networks (the work bound grows with the budget)
         bnet = common.g_tt(rng, rng.randint(2, 3)) if rng.random() < 0.5 else "A, B\nB, A"
         ops = [op for op in ops if op[0] in ("seedsq", "cands", "setsq", "bfs", "one", "build")] or [["cands", 0]]
-    return {"bnet": bnet, "ops": ops, "cfg": {"minimum_simulation_budget": budget_}}
+    cfg = {"minimum_simulation_budget": budget_}
+    if rng.random() < 0.25:
+        # rarely used values of the other options (zero included): every one of them selects another code path
+        for key, vals in (("nfvs_size_threshold", [0, 1, 3]), ("retained_set_optimization_threshold", [0, 1, 2]),
+                          ("attractor_candidates_limit", [1, 2, 5, 50]), ("max_motifs_per_node", [1, 2, 4])):
+            if rng.random() < 0.4:
+                cfg[key] = rng.choice(vals)
+    return {"bnet": bnet, "ops": ops, "cfg": cfg}
 
 
 def wbound(n, d, budget):
